@@ -28,7 +28,18 @@ def fixed_trees():
               ["c", 0], ["c", 34], ["c", 92], ["c", 127], ["c", 0xE9], ["c", 0x20AC], ["c", 0x1F600],
               S(""), S("plain"), S("q\"b\\s/"), S("\b\f\n\r\t"), S("\x00\x01\x1f\x7f"), S("é€😀 "),
               ["y", ""], ["y", "00"], ["y", "00ff80"], ["none"], ["unit"], ["us", hx("Unit")],
-              ["uv", hx("E"), 3, hx("Va\"r")]]
+              ["uv", hx("E"), 3, hx("Va\"r")],
+              # Display values through collect_str, one write_str per fragment
+              ["cs", []], ["cs", [hx("whole")]], ["cs", [hx("2024"), hx("-"), hx("01"), hx("-"), hx("02")]],
+              ["cs", [hx("a\"b"), hx(""), hx("\n\\"), hx("é€"), hx("😀\x01")]],
+              ["cs", [hx("k%02d." % i) for i in range(12)]],
+              ["cs", [hx("k"), hx("a-long-fragment-of-display-text"), hx("z")]],
+              # Serialize impls that consult is_human_readable(): a probe and the std::net types
+              ["hr", S("human"), ["tup", 2, [["i", "u8", "1"], ["i", "u8", "2"]]]],
+              ["hr", ["hr", S("hh"), ["unit"]], ["unit"]],
+              ["net", "v4", "c0a80114", 0], ["net", "v6", "20010db8000000000000000000000001", 0],
+              ["net", "ip4", "7f000001", 0], ["net", "ip6", "00000000000000000000ffffc0a80114", 0],
+              ["net", "sa4", "0a000001", 8080], ["net", "sa6", "fe800000000000000000000000000001", 65535]]
     out = list(leaves)
     for l in leaves:
         out.append(["map", 1, [[l, ["unit"]]]])
@@ -85,7 +96,7 @@ def gen_cases(ck):
     for i, v in enumerate(fixed_trees()):
         add(v, "fixed", send="all" if i % 23 == 0 else "auto", cont=[None, True, False][i % 3])
     # random trees of serializer calls, acceptable keys only
-    for i in range(6000 if quick else 60000):
+    for i in range(5000 if quick else 60000):
         v = g.tree(rng.choice([1, 2, 2, 3, 3, 4]), 0.0, rng.choice([2, 3, 4, 6]))
         if sg.size(v) > 60:
             continue
@@ -123,7 +134,7 @@ def gen_cases(ck):
         g.stats["scalars_through_model"] = g.stats.get("scalars_through_model", 0) + len(cps)
         add(v, "scalars", sweep="boundary", send="auto" if i % 8 == 0 else None)
     # the malformed stream: trees with unacceptable keys somewhere
-    for i in range(1500 if quick else 15000):
+    for i in range(1200 if quick else 15000):
         v = g.tree(rng.choice([0, 1, 2, 3, 3]), rng.choice([0.0, 0.15, 0.4]), rng.choice([2, 3, 4]))
         v = sg.inject_bad_key(g, v)
         if sg.size(v) > 60:
@@ -169,6 +180,8 @@ def job_cases(ck, first_id):
         add({"job": "unicode", "lo": i * step, "hi": (i + 1) * step})
     add({"job": "pairs"})
     add({"job": "ints16"})
+    add({"job": "collect"})
+    add({"job": "net", "seed": seed + 50, "n": 3000 if quick else 300000})
     for i in range(4 if quick else 16):
         add({"job": "intswide", "seed": seed + i, "n": 20000 if quick else 1000000})
     if quick:
